@@ -31,7 +31,7 @@ int eav_cli_main(int argc, char **argv);
 // independent copy of the library (own decoder), every global renamed ref_*: the reference model's oracle
 void ref_eav_init(eav_t *); int ref_eav_setup(eav_t *); int ref_eav_is_email(eav_t *, const char *, size_t); const char *ref_eav_errstr(eav_t *);
 FILE *__real_fopen(const char *, const char *);
-int __real_fileno(FILE *); int __real_fstat(int, struct stat *);
+int __real_fileno(FILE *); int __real_fstat(int, struct stat *); char *__real_setlocale(int, const char *); char *__real_strerror(int);
 }
 
 using std::string;
@@ -69,6 +69,7 @@ struct Op {
     string ff_kind; int ff_errno = 0; long long ff_at = -1; int ff_transient = 0; // FILE fault
     int fkind = 0;              // FILE: what fstat() says - 0 regular file (st_size = length), 1 FIFO/pipe (st_size = 0)
     string of_kind; long long of_at = -1; int of_errno = 0;                        // INVOKE: stdout fault
+    int loc = 0;                // INVOKE: the user's locale (the tool calls setlocale(LC_ALL, "")): 0 C, 1 C.UTF-8, 2 a single-byte locale
 };
 struct Plan { string cfg = "nofault"; uint64_t seed = 0; long long index = -1; vector<Op> ops; };
 
@@ -82,6 +83,7 @@ static sj::Value op_to_json(const Op &op) {
         if (op.fkind) j.set("kind", op.fkind);
         if (!op.ff_kind.empty()) { sj::Value f = sj::Value::object(); f.set("kind", op.ff_kind); f.set("errno", op.ff_errno); f.set("at", op.ff_at); f.set("transient", op.ff_transient); j.set("ff", f); }
     }
+    if (op.k == "INVOKE" && op.loc) j.set("loc", op.loc);
     if (op.k == "INVOKE" && !op.of_kind.empty()) { sj::Value f = sj::Value::object(); f.set("kind", op.of_kind); f.set("at", op.of_at); f.set("errno", op.of_errno); j.set("of", f); }
     return j;
 }
@@ -98,7 +100,7 @@ static Plan plan_from_json(const sj::Value &j) {
     if (ops) for (auto &e : ops->a) {
         Op op; op.k = e.gets("k");
         if (op.k != "INVOKE" && op.k != "FILE" && op.k != "LINE") continue;
-        op.s = e.gets("s"); op.t = (int)e.geti("t"); op.fkind = (int)e.geti("kind");
+        op.s = e.gets("s"); op.t = (int)e.geti("t"); op.fkind = (int)e.geti("kind"); op.loc = (int)e.geti("loc");
         const sj::Value *c = e.get("chunks"); if (c) for (auto &x : c->a) op.chunks.push_back(x.i < 1 ? 1 : x.i);
         const sj::Value *f = e.get("ff");
         if (f && f->kind == sj::Value::Obj) { op.ff_kind = f->gets("kind"); op.ff_errno = (int)f->geti("errno"); op.ff_at = f->geti("at", -1); op.ff_transient = (int)f->geti("transient"); }
@@ -111,11 +113,11 @@ static Plan plan_from_json(const sj::Value &j) {
 
 // structured view of a plan (ops interpreted modulo structure: any subsequence is legal)
 struct SFile { int fkind = 0; string data; vector<long long> chunks; string ff_kind; int ff_errno = 0; long long ff_at = -1; int ff_transient = 0; int nlines = 0; };
-struct SInv { vector<SFile> files; string of_kind; long long of_at = -1; int of_errno = 0; };
+struct SInv { vector<SFile> files; string of_kind; long long of_at = -1; int of_errno = 0; int loc = 0; };
 static vector<SInv> structure(const Plan &p) {
     vector<SInv> inv;
     for (auto &op : p.ops) {
-        if (op.k == "INVOKE") { SInv i; i.of_kind = op.of_kind; i.of_at = op.of_at; i.of_errno = op.of_errno; inv.push_back(i); }
+        if (op.k == "INVOKE") { SInv i; i.of_kind = op.of_kind; i.of_at = op.of_at; i.of_errno = op.of_errno; i.loc = op.loc; inv.push_back(i); }
         else if (op.k == "FILE") {
             if (inv.empty()) inv.push_back(SInv());
             SFile f; f.fkind = op.fkind; f.chunks = op.chunks; f.ff_kind = op.ff_kind; f.ff_errno = op.ff_errno; f.ff_at = op.ff_at; f.ff_transient = op.ff_transient;
@@ -212,6 +214,22 @@ extern "C" FILE *__wrap_fopen(const char *path, const char *mode) {
         return r;
     }
     return __real_fopen(path, mode);
+}
+
+// locale data loaded by glibc for setlocale() is cached by glibc for the life of the process: not the tool's allocation
+extern "C" char *__wrap_setlocale(int cat, const char *name) {
+    if (S) S->in_harness++;
+    char *r = __real_setlocale(cat, name);
+    if (S) S->in_harness--;
+    return r;
+}
+
+// message catalogues looked up by strerror() under a non-C locale are cached by glibc as well
+extern "C" char *__wrap_strerror(int e) {
+    if (S) S->in_harness++;
+    char *r = __real_strerror(e);
+    if (S) S->in_harness--;
+    return r;
 }
 
 // what the simulated file system says about an input stream: descriptor numbers 1000+N, fstat() per the plan's file kind
@@ -376,6 +394,7 @@ struct Stats {
     uint64_t fault_out_attached = 0, fault_out_fired = 0, relaxed_files = 0, allocs = 0;
     std::set<string> shapes, tuples; std::set<uint64_t> plan_hashes, nontrivial;
     std::map<string, uint64_t> chunk_class;
+    uint64_t by_locale[3] = { 0, 0, 0 };
 };
 static Stats ST;
 
@@ -410,6 +429,13 @@ struct Exec {
         setvbuf(sim.cap_out, outbuf, _IOFBF, sizeof outbuf);
         setvbuf(sim.cap_err, nullptr, _IONBF, 0);
         sim.in_harness--;
+        // the environment the user runs the tool in
+        static const char *LN[] = { "C", "C.UTF-8", "xx_XX.LEGACY8" };
+        const char *lp = getenv("VERIF_LOCPATH");
+        int loc = (iv.loc == 2 && !(lp && *lp)) ? 0 : iv.loc % 3;
+        setenv("LC_ALL", LN[loc], 1);
+        if (loc == 2) setenv("LOCPATH", lp, 1); else unsetenv("LOCPATH");
+        ST.by_locale[loc]++;
         FILE *so = stdout, *se = stderr;
         fflush(so);
         std::map<const void *, Blk> live; g_live = &live; g_seq = 0;
@@ -652,6 +678,7 @@ static Plan gen_plan(const string &cfg, uint64_t seed, long long index) {
     unsigned crlf_bias = (unsigned)sim_below(&w, 3);
     for (int iv = 0; iv < ninv; iv++) {
         Op inv; inv.k = "INVOKE";
+        { unsigned lc = (unsigned)sim_below(&w, 10); inv.loc = lc < 6 ? 0 : lc < 8 ? 1 : 2; }
         if (cfg == "outfault" && sim_below(&f, 100) < 70) {
             unsigned k = (unsigned)sim_below(&f, 3);
             inv.of_kind = k == 0 ? "short" : k == 1 ? "enospc" : "epipe"; inv.of_errno = k == 1 ? ENOSPC : EPIPE;
@@ -746,6 +773,7 @@ static sj::Value stats_json() {
     j.set("fault_fopen_attached", ST.fault_open_attached); j.set("fault_fopen_fired", ST.fault_open);
     j.set("fault_read_attached", ST.fault_read_attached); j.set("fault_read_eintr_fired", ST.fault_read_eintr); j.set("fault_read_eio_fired", ST.fault_read_eio);
     j.set("fault_stdout_attached", ST.fault_out_attached); j.set("fault_stdout_fired", ST.fault_out_fired); j.set("files_checked_relaxed", ST.relaxed_files);
+    { sj::Value bl = sj::Value::object(); bl.set("C", ST.by_locale[0]); bl.set("C.UTF-8", ST.by_locale[1]); bl.set("single_byte_legacy8", ST.by_locale[2]); j.set("invocations_by_locale", bl); }
     sj::Value cc = sj::Value::object(); for (auto &kv : ST.chunk_class) cc.set(kv.first, kv.second); j.set("files_by_chunk_class", cc);
     sj::Value sh = sj::Value::array(); for (auto &s : ST.shapes) sh.push(sj::Value::str(s)); j.set("line_shapes", sh);
     sj::Value tu = sj::Value::array(); for (auto &s : ST.tuples) tu.push(sj::Value::str(s)); j.set("shape_chunk_fault_tuples", tu);
